@@ -283,3 +283,27 @@ func TestBufferedChannelFIFOWithPendingReceiver(t *testing.T) {
 		t.Errorf("buffered channel must deliver in FIFO order under every schedule, got %v", o)
 	}
 }
+
+// TestRangeOverChannel: the rewritten form of `for v := range ch` receives through the scheduler until close.
+func TestRangeOverChannel(t *testing.T) {
+	var got []int
+	body := func() {
+		got = nil
+		ch := make(chan int, 1)
+		done := make(chan struct{})
+		rt.Go("consumer", func() {
+			for v := range rt.RangeChan(ch) {
+				got = append(got, v)
+			}
+			rt.Close(done)
+		})
+		rt.Send(ch, 1)
+		rt.Send(ch, 2)
+		rt.Close(ch)
+		rt.Recv(done)
+	}
+	o := outcomes(t, 2, body, func() string { return fmt.Sprint(got) })
+	if len(o) != 1 || o["[1 2]"] == 0 {
+		t.Errorf("want only [1 2], got %v", o)
+	}
+}
